@@ -7,6 +7,9 @@ import time
 from .front import VERIF, AnalysisBroken
 
 KNOWN = os.path.join(VERIF, "known_findings.json")
+# evidence/ and reports/ go under OUT; the self-test (tools/seedmatrix.py) redirects it so that a run on a
+# deliberately broken scratch tree never overwrites the evidence of the real tree
+OUT = os.environ.get("VERIF_OUT") or VERIF
 FLOORS = os.path.join(VERIF, "verif", "floors.json")
 
 
@@ -62,11 +65,15 @@ class Check:
         if os.path.exists(FLOORS):
             with open(FLOORS) as f:
                 floors = json.load(f).get(self.pid, {})
+        blind = []
         for rid, r in self.rules.items():
             fl = floors.get(rid, 1)
             if r["obligations"] < fl:
-                raise AnalysisBroken("rule %s of %s matched %d obligations, floor is %d (anchor moved or rule went blind)"
-                                     % (rid, self.pid, r["obligations"], fl))
+                blind.append("rule %s of %s matched %d obligations, floor is %d (anchor moved or rule went blind)"
+                             % (rid, self.pid, r["obligations"], fl))
+        for rid in floors:
+            if rid not in self.rules:
+                blind.append("rule %s of %s did not run at all" % (rid, self.pid))
         kf = {e["key"]: e for e in known.get("findings", [])
               if e.get("property") == self.pid and e.get("status") == "known"}
         violations, knowns = [], []
@@ -77,20 +84,24 @@ class Check:
             seen.add(f.key)
             (knowns if f.key in kf else violations).append(f)
         stale = [k for k in kf if k not in seen]
-        os.makedirs(os.path.join(VERIF, "reports"), exist_ok=True)
+        os.makedirs(os.path.join(OUT, "reports"), exist_ok=True)
         for f in knowns:
             print("KNOWN-FINDING: property=%s %s [%s] %s" % (self.pid, f.key, f.where, f.what))
         for k in stale:
             print("note: known finding %s no longer reproduced by the analysis (repaired upstream?)" % k)
         for f in violations:
             safe = "".join(c if c.isalnum() or c in "-_." else "_" for c in f.key)[:120]
-            path = os.path.join(VERIF, "reports", "%s-%s.json" % (self.pid, safe))
+            path = os.path.join(OUT, "reports", "%s-%s.json" % (self.pid, safe))
             with open(path, "w") as fh:
                 json.dump(dict(f.as_dict(), property=self.pid, tier=self.tier), fh, indent=1)
             print("%s: %s: %s" % (f.where or "?", f.key, f.what))
             if f.detail:
                 print("    " + str(f.detail)[:600])
             print("VIOLATION property=%s replay=%s" % (self.pid, path))
+        if blind and not violations:
+            # a rule that lost its instances is neither a pass nor an alarm; concrete violations found by the
+            # rules that still see their instances are reported first (they name real constructs)
+            raise AnalysisBroken("; ".join(blind))
         nob = sum(r["obligations"] for r in self.rules.values())
         ndis = sum(r["discharged"] for r in self.rules.values())
         level = self.level
@@ -122,8 +133,8 @@ class Check:
         ev = {"property_id": self.pid, "tier": self.tier, "seed": self.seed, "level": level, "coverage": cov,
               "assumptions": self.assumptions, "wall_s": round(time.time() - self.t0, 3),
               "violations": len(violations)}
-        os.makedirs(os.path.join(VERIF, "evidence"), exist_ok=True)
-        with open(os.path.join(VERIF, "evidence", self.pid + ".json"), "w") as f:
+        os.makedirs(os.path.join(OUT, "evidence"), exist_ok=True)
+        with open(os.path.join(OUT, "evidence", self.pid + ".json"), "w") as f:
             json.dump(ev, f, indent=1)
         print("%s [%s]: %d obligations, %d discharged, %d known finding(s), %d violation(s), %.1fs" %
               (self.pid, self.tier, nob, ndis, len(knowns), len(violations), time.time() - self.t0))
